@@ -18,7 +18,7 @@ theorem waitReturns_blocked (w : Cmd) (start : Nat) (τ : Option Nat) (h : w.cop
   | some dead => simp [h]
 
 theorem waitReturns_prompt (w : Cmd) (start τ d : Nat) (h : w.copy.terminatesWithin d) :
-    ∃ r, waitReturns w start (some τ) = some r ∧ start ≤ r ∧ r ≤ max τ start + max waitDelay d := by
+    ∃ r, waitReturns w start (some τ) = some r ∧ start ≤ r ∧ r ≤ max τ start + (waitDelay + d) := by
   obtain ⟨dead, hd, h1, h2⟩ := deadAt_some_of_ctx w start τ
   unfold waitReturns
   rw [hd]
@@ -41,7 +41,7 @@ theorem cancelledW_mono {τi τc : Option Nat} {i j clk clk' : Nat} (h : cancell
   | inl h => exact Or.inl (cancelledBy_mono h hij)
   | inr h => exact Or.inr (cancelledBy_mono h hc)
 
-theorem runW_prompt_aux {N : Nat} (τ d B : Nat) (τi : Option Nat) (hB : τ + max waitDelay d ≤ B) (ss : List Step)
+theorem runW_prompt_aux {N : Nat} (τ d B : Nat) (τi : Option Nat) (hB : τ + (waitDelay + d) ≤ B) (ss : List Step)
     (hterm : ∀ w, Step.wait w ∈ ss → w.copy.terminatesWithin d)
     (i clk c a : Nat) (k : Counts) (hc : c < N) (hclk : clk ≤ B) (ha : a ≤ c)
     (ha0 : cancelledW τi (some τ) i clk = false → a = 0) :
@@ -115,7 +115,7 @@ theorem runW_no_waits (N : Nat) (τi : Option Nat) (ds : List D) (i clk c a : Na
       | plain => exact ih ..
       | tick => exact ih ..
 
-theorem closeAll_prompt (τ d B : Nat) (hB : τ + max waitDelay d ≤ B) (open_ : List (Cmd × Nat))
+theorem closeAll_prompt (τ d B : Nat) (hB : τ + (waitDelay + d) ≤ B) (open_ : List (Cmd × Nat))
     (hterm : ∀ p ∈ open_, p.1.copy.terminatesWithin d ∧ p.2 ≤ τ) (now : Nat) (hnow : now ≤ B) :
     ∃ r, closeAllReturns (some τ) open_ now = some r ∧ r ≤ B := by
   induction open_ generalizing now with
